@@ -4,6 +4,8 @@ mod hb;
 mod hist;
 mod layouts;
 mod props_buf;
+mod props_c04;
+mod props_grid;
 mod props_hist;
 mod props_sched;
 mod report;
@@ -40,6 +42,7 @@ fn main() {
       code
     }
     "calib" => props_sched::calib(),
+    "c04-child" => props_c04::child(if args[2] == "thorough" { Tier::Thorough } else { Tier::Quick }, &args[3], &args[4], args[5].parse().unwrap(), args[6].parse().unwrap()),
     "replay" => {
       let s = std::fs::read_to_string(&args[2]).unwrap_or_else(|e| {
         eprintln!("machinery: cannot read {}: {e}", args[2]);
@@ -84,7 +87,13 @@ fn dispatch(id: &str, tier: Tier) -> i32 {
   match id {
     "C01" | "C03" | "C08" | "C10" | "C11" | "C20" => props_hist::check(id, tier),
     "C02" | "C07" | "C12" | "C13" => props_sched::check(id, tier),
+    "C04" => props_c04::check(tier),
     "C14" => props_buf::check(tier),
+    "C15" => props_grid::check_c15(tier),
+    "C16" => props_grid::check_c16(tier),
+    "C17" => props_grid::check_c17(tier),
+    "C18" => props_grid::check_c18(tier),
+    "C19" => props_grid::check_c19(tier),
     _ => {
       eprintln!("machinery: no check for {id}");
       2
